@@ -286,6 +286,20 @@ Definition tx_touches (a : bytes) (t : tx) : bool :=
   | TInvoke ops => existsb (cop_touches a) ops
   end.
 
+(** service calls / transactions that need a contract record at [a] or would create one: deploy at
+    [a], migrate onto [a], Contract.Destroy by [a], APPCALL of [a] *)
+Definition cop_claims (a : bytes) (o : cop) : bool :=
+  match o with
+  | CDestroy c | CCall c => bytes_eqb c a
+  | CMigrate _ n _ => bytes_eqb n a
+  | _ => false
+  end.
+Definition tx_claims (a : bytes) (t : tx) : bool :=
+  match t with
+  | TDeploy b _ => bytes_eqb b a
+  | TInvoke ops => existsb (cop_claims a) ops
+  end.
+
 (** observations *)
 Definition contract_record (s : state) (a : bytes) : bytes := cache_get ST_CONTRACT s a.
 Definition storage_at (s : state) (a sfx : bytes) : bytes := cache_get ST_STORAGE s (a ++ sfx).
